@@ -131,3 +131,13 @@ Definition law_per c := law_with per_okb no_guard c.
 Definition law_sums c := law_with sums_okb no_guard c.
 Definition law_caps c := law_with caps_okb no_guard c.
 Definition law_delete c := law_with (fun _ => true) (delete_guardb c) c.
+
+(* the real capacity plugin accepted the hierarchy the history ended in *)
+Fixpoint replay_final (Q : queues) (rs : list req) (vs : list Z) : queues :=
+  match rs, vs with
+  | r :: rs', v :: vs' => replay_final (if v =? 0 then apply_req Q r else Q) rs' vs'
+  | _, _ => Q
+  end.
+Definition law_capacity (c : cfg) (Q0 : queues) (rs : list req) (vs : list Z) (ready : Z) : bool :=
+  if tree_okb c Q0 && forallb req_wfb rs && shape_okb c (replay_final Q0 rs vs)
+  then ready =? 1 else true.
